@@ -278,11 +278,22 @@ def execute(ctx, case):
             raise RuntimeError("sftpenv server thread did not stop")
 
 
+def _explore_in_slices(ctx, strategy, body, total, shrink, slice_size=400):
+    """ctx.explore in slices (own seed offset each), so that after a budget hit the run ends within one
+    slice instead of letting hypothesis generate thousands of cases that are skipped."""
+    done = k = 0
+    while done < total and not ctx.out_of_time():
+        n = min(slice_size, total - done)
+        ctx.explore(strategy, body, n, shrink=shrink, seed_offset=k)
+        done += n
+        k += 1
+
+
 def run(ctx):
     ctx.set_budget(60, 800)
     if not IS_ROOT:
         ctx.assume("not running as root: chown only to the current uid/gid")
-    ctx.explore(case_st, lambda c: execute(ctx, c), ctx.scale(1500, 12000))
+    _explore_in_slices(ctx, case_st, lambda c: execute(ctx, c), ctx.scale(1500, 40000), shrink=True, slice_size=1500)
 
 
 def replay(ctx, case):
